@@ -22,7 +22,7 @@ from ..workers import c07_worker as W
 
 THEOREMS = ["inv", "inv_meaning", "key_inj", "value_class", "code_struct_eq_iff", "same_iff_struct_partial",
             "same_iff_struct_plain", "no_late_alias", "returned_is_requested", "hit_is_earlier_fresh", "fresh_ids_dense",
-            "no_runtime_error", "neg_zero_alias", "fresh_nan_split", "shared_nan_same", "same_iff_struct_fails",
+            "no_runtime_error", "const_value_class_nan_free", "neg_zero_distinct_regression", "fresh_nan_split", "shared_nan_same", "same_iff_struct_fails",
             "python_eq_facts"]
 SEARCHED = [
     "full statement on the real code (constants compared by exact content): object identity vs the structural oracle",
@@ -303,11 +303,14 @@ def check_value_pairs(ctx, enc, pairs):
         except Exception:  # noqa
             continue
         teq = (va,) == (vb,)
-        keq = ((va, type(va).__name__),) == ((vb, type(vb).__name__),)
-        if keq and hash((va, type(va).__name__)) != hash((vb, type(vb).__name__)):
+        ka, kb = (va, type(va).__name__, str(va)), (vb, type(vb).__name__, str(vb))
+        keq = (ka,) == (kb,)
+        # str is compared with the model only inside one type name (the model's strRep is "exact content as text")
+        seq = "%d" % (str(va) == str(vb)) if type(va).__name__ == type(vb).__name__ else "*"
+        if keq and hash(ka) != hash(kb):
             ctx.broken("trusted:hash-consistent-with-eq", f"{va!r} {vb!r}")
         lines.append(" ".join(["eq"] + enc.value_tokens(va, 0) + enc.value_tokens(vb, 0 if same else 1)))
-        expect.append("%d %d %d" % (teq, eq, keq))
+        expect.append("%d %d %d %s" % (teq, eq, keq, seq))
         meta.append((a, b, same))
         ctx.count("eqpair:" + ("same-object" if same else "equal" if eq else "unequal"))
     return lines, expect, meta
@@ -401,10 +404,10 @@ def remove_steps(h, idxs):
 
 WITNESSES = [
     # replays of the Lean negation witnesses on the real code
-    ("neg_zero_alias", [{"op": "sym", "name": "x", "ty": {"s": "float32"}, "via": "ctx"},
+    ("neg_zero_distinct_regression", [{"op": "sym", "name": "x", "ty": {"s": "float32"}, "via": "ctx"},
                         {"op": "const", "val": {"t": "float", "v": 0, "slot": None}, "like": 0, "via": "ctx"},
                         {"op": "const", "val": {"t": "float", "v": 1 << 63, "slot": None}, "like": 0, "via": "ctx"}],
-     ["fresh", "fresh", "hit"]),
+     ["fresh", "fresh", "fresh"]),
     ("fresh_nan_split", [{"op": "sym", "name": "x", "ty": {"s": "float32"}, "via": "ctx"},
                          {"op": "const", "val": {"t": "float", "v": 0x7FF8000000000000, "slot": None}, "like": 0, "via": "ctx"},
                          {"op": "const", "val": {"t": "float", "v": 0x7FF8000000000000, "slot": None}, "like": 0, "via": "ctx"}],
@@ -510,6 +513,8 @@ def run(ctx):
             ctx.traces_validated += max(0, len(res.lines) - 1)
     pm = 0
     for (a, b, same), ex, got in zip(pmeta, pexpect, out[len(all_lines):]):
+        if ex.endswith("*"):
+            got = got[:-1] + "*"
         if ex != got:
             pm += 1
             if pm <= 3:
